@@ -426,7 +426,7 @@ pub fn gen_proxy(seed: u64, prop: &str, tier: &str) -> Value {
     json!({
         "scenario": format!("proxy:{}", prop), "seed": seed, "family": "proxy", "prop": prop,
         "knobs": knobs, "procs": procs, "users": users_json(), "steps": steps, "oracles": oracles,
-        "config": {"pollKeyStatusIntervalInSeconds": 1 + r.below(15)}, "settle_ms": 1000,
+        "config": {"pollKeyStatusIntervalInSeconds": 1 + r.below(15)}, "settle_ms": 3000,
         "faulty": false
     })
 }
